@@ -19,6 +19,7 @@ func init() {
 }
 
 func c10Case(g *Gen, c addchain.Chain) {
+	g.Pending("c10", encInts(c))
 	before := cloneInts(c)
 	out := "err"
 	var o addchain.Chain
